@@ -11,7 +11,7 @@ CONSTANTS MaxLen,      \* streams of 0..MaxLen records
           Symbols,     \* subset of 1..12: the alphabet (see Sym)
           SegIMs, TofIMs, FrameIds, StoreIds, NStores, Freshes, MaxSegs,
           FixEmpty     \* TRUE: the specification; FALSE: the unpatched code's treatment of frames without a time mark
-VARIABLES P, s, rs, tab, m, prev
+VARIABLES P, s, rs, tab, m, prev, H   \* tab: PlanOf(P); H: memo of the abstract histograms of all frames
 
 C0(maxSeg) == [N |-> 4, R |-> 2, span |-> 1, ge |-> FALSE, maxDelta |-> 1, mash |-> 1, tofMash |-> 1, maxT |-> 3,
                minTang |-> -1, maxTang |-> 0, minSeg |-> -maxSeg, maxSeg |-> maxSeg]
@@ -41,26 +41,41 @@ Params == { p \in [segIM : SegIMs, tofIM : TofIMs, fs : FrameIds, st : StoreIds,
 ParamOf(p) == [c |-> C0(p.maxSeg), frames |-> FrameSet(p.fs), segIM |-> p.segIM, tofIM |-> p.tofIM,
                storeP |-> StoreOf(p.st)[1], storeD |-> StoreOf(p.st)[2], nStore |-> p.nStore, fresh |-> p.fresh]
 Streams == UNION { [1..n -> Symbols] : n \in 0..MaxLen }
-TabOf(c) == LET so == SegOff(c)  ta == TotAx(c) IN
-            [nb |-> NBins(c), segOff |-> so, totAx |-> ta, stab |-> SegTofTable(c, so, ta)]
-ResolveRec(c, t, rec) == IF IsTime(rec) THEN NoRes ELSE Resolve(c, t.segOff, t.totAx, BinOf(c, PairOf(rec)))
+ResolveRec(c, rec) == IF IsTime(rec) THEN NoRes ELSE Resolve(c, BinOf(c, PairOf(rec)))
+\* constant-level tables (TLC evaluates them once)
+SymT == [k \in 1..12 |-> Sym(k)]
+SymRes0 == [k \in 1..12 |-> ResolveRec(C0(0), Sym(k))]
+SymRes1 == [k \in 1..12 |-> ResolveRec(C0(1), Sym(k))]
+Zero0 == ZeroHist(C0(0))
+Zero1 == ZeroHist(C0(1))
+\* time marks never go back (symbols 8..12 are time marks with increasing times)
+MonotoneIds(str) == \A i, j \in 1..Len(str) : (i < j /\ str[i] >= 8 /\ str[j] >= 8) => str[i] <= str[j]
 
 Init == \E p \in Params : \E str \in Streams :
-          LET st == [i \in 1..Len(str) |-> Sym(str[i])]  pp == ParamOf(p)  t == TabOf(pp.c) IN
-          /\ Monotone(st) /\ LegalFrames(pp) /\ LegalStore(pp)
-          /\ P = pp /\ s = st /\ tab = t
-          /\ rs = [i \in 1..Len(st) |-> ResolveRec(pp.c, t, st[i])]
-          /\ m = M0(t.nb) /\ prev = ZeroHist(t.nb)
+          /\ MonotoneIds(str)
+          /\ P = ParamOf(p)
+          /\ s = [i \in 1..Len(str) |-> SymT[str[i]]]
+          /\ tab = PlanOf(ParamOf(p))
+          /\ rs = [i \in 1..Len(str) |-> IF p.maxSeg = 0 THEN SymRes0[str[i]] ELSE SymRes1[str[i]]]
+          /\ m = [pc |-> "init", f |-> 1, bi |-> 1, pos |-> 0, ct |-> 0, fct |-> 0, more |-> 0, empty |-> FALSE,
+                  spos |-> 0, sid |-> 0, acc |-> IF p.maxSeg = 0 THEN Zero0 ELSE Zero1, out |-> IF p.maxSeg = 0 THEN Zero0 ELSE Zero1]
+          /\ prev = IF p.maxSeg = 0 THEN Zero0 ELSE Zero1
+          /\ H = << >>
 
-ev == Expected(P, Len(s), m)
+ev == Expected(tab, Len(s), m)
 Step(rec, r) ==
-  /\ m' = LET m1 == Apply(P, tab.nb, tab.stab, m, ev, rec, r, m.f) IN
+  /\ m' = LET m1 == Apply(P, tab, m, ev, rec, r, m.f) IN
           \* FixEmpty = FALSE models the code as it is: a frame without a time mark is not recognised as empty
           IF ~FixEmpty /\ ev[1] = "FrameStart" THEN [m1 EXCEPT !.empty = FALSE] ELSE m1
-  /\ prev' = IF ev[1] = "NewFrame" THEN (IF P.fresh \/ ev[2] = 1 THEN ZeroHist(tab.nb) ELSE m.out) ELSE prev
-  /\ UNCHANGED << P, s, rs, tab >>
+  /\ prev' = IF ev[1] = "NewFrame" THEN (IF P.fresh \/ ev[2] = 1 THEN ZeroHist(P.c) ELSE m.out) ELSE prev
+  /\ UNCHANGED << P, s, rs, tab, H >>
 NoRec == << 0, 0, 0, 0, 0, 0 >>
 
+\* (not an action of the implementation) memoise the abstract histogram of every frame
+AMemoHist == /\ m.pc = "init"
+             /\ H' = [f \in 1..NumFrames(P) |-> Hist(P, s, rs, f)]
+             /\ m' = [m EXCEPT !.pc = "newframe"]
+             /\ UNCHANGED << P, s, rs, tab, prev >>
 ANewFrame == ev[1] = "NewFrame" /\ Step(NoRec, NoRes)
 ABatch == ev[1] = "Batch" /\ Step(NoRec, NoRes)
 ASkipRecord == ev[1] = "R" /\ m.pc = "skip" /\ ev[2] > 0 /\ Step(s[ev[2]], rs[ev[2]])
@@ -73,24 +88,26 @@ AReadTime == ev[1] = "R" /\ m.pc = "read" /\ ev[2] > 0 /\ IsTime(s[ev[2]]) /\ St
 AReadEvent == ev[1] = "R" /\ m.pc = "read" /\ ev[2] > 0 /\ IsEvent(s[ev[2]]) /\ Step(s[ev[2]], rs[ev[2]])
 AReadEof == ev[1] = "R" /\ m.pc = "read" /\ ev[2] = 0 /\ Step(NoRec, NoRes)
 ABatchSave == ev[1] = "Save" /\ Step(NoRec, NoRes)
-Next == ANewFrame \/ ABatch \/ ASkipRecord \/ ASkipEof \/ ASavePosition \/ AFrameStart \/ ASetPosition \/ ARewind
+Next == AMemoHist \/ ANewFrame \/ ABatch \/ ASkipRecord \/ ASkipEof \/ ASavePosition \/ AFrameStart \/ ASetPosition \/ ARewind
         \/ AReadTime \/ AReadEvent \/ AReadEof \/ ABatchSave
-Spec == Init /\ [][Next]_<< P, s, rs, tab, m, prev >>
+Spec == Init /\ [][Next]_<< P, s, rs, tab, m, prev, H >>
 
 \* every (segment, TOF bin) is in memory in exactly one pass
-InvBatches == (m.pc = "newframe" /\ m.f = 1) => BatchesPartition(P)
+InvBatches == (m.pc = "init") => (BatchesPartition(P) /\ Monotone(s) /\ LegalFrames(P) /\ LegalStore(P))
 \* "adds ... exactly one count ... to the bin ... and nothing else; the result does not depend on how many
 \*  segments or TOF bins are held in memory at once": after every pass, and at the end of every frame, the
 \*  output is the abstract histogram (which does not mention the batch sizes) on what has been saved
-InvOut == m.pc \in {"batch", "endframe"} => OutCorrect(P, s, rs, tab.nb, tab.stab, m, prev)
+InvOut == m.pc \in {"batch", "endframe"} => OutCorrect(P, tab, H[m.f], m, prev)
 \* "the frames of a partition of a time interval add up to the histogram of the whole interval"
-InvPartition == (m.pc = "newframe" /\ m.f = 1) => PartitionAddsUp(P, s, rs, tab.nb)
+InvPartition == (m.pc = "init") => PartitionAddsUp(P, s, rs)
 \* the stream is never read beyond its end and a pass never starts before the saved frame start
 InvPos == m.pos >= 0 /\ m.pos <= Len(s) /\ (m.pc = "read" => m.pos >= m.spos)
 \* num_events_to_store: "counts each stored event once irrespective of batching": the net number of counts
 \* stored in a frame never exceeds nStore
 InvCount == (m.pc = "endframe" /\ ~TimeMode(P)) =>
-              LET RECURSIVE Tot(_)
-                  Tot(i) == IF i = 0 THEN 0 ELSE m.out[i] + Tot(i - 1)
-              IN Tot(tab.nb) <= P.nStore
+              LET RECURSIVE Tot(_, _)
+                  Tot(q, i) == IF i = 0 THEN 0 ELSE q[i] + Tot(q, i - 1)
+                  RECURSIVE TotS(_)
+                  TotS(S) == IF S = {} THEN 0 ELSE LET x == CHOOSE y \in S : TRUE IN Tot(m.out[x[1]][x[2]], SegSize(P.c, x[2])) + TotS(S \ {x})
+              IN TotS(TofBins(P.c) \X Segs(P.c)) <= P.nStore
 =============================================================================
